@@ -386,6 +386,34 @@ def make_backend(kind):
         w = MemoryFS()
         mu.add_fs("w", w, write=True)
         return Backend(kind, mu, inner=[w])
+    if kind == "multi2":
+        from fs.multifs import MultiFS
+
+        mu = MultiFS()
+        w, lo, hi = MemoryFS(), MemoryFS(), MemoryFS()
+        for m, nm in ((lo, "lo"), (hi, "hi")):
+            m.makedirs("a/b")
+            m.writebytes("a/" + nm, nm.encode())
+            m.writebytes("c", nm.encode())
+            m.writebytes("only-" + nm, b"x")
+            m.writebytes("a/b/c", b"deep")
+        mu.add_fs("lo", lo, priority=1)
+        mu.add_fs("hi", hi, priority=5)
+        mu.add_fs("w", w, write=True, priority=3)
+        return Backend(kind, mu, inner=[w, lo, hi])
+    if kind == "mount-nested":
+        from fs.mountfs import MountFS
+
+        mfs = MountFS()
+        a, b = MemoryFS(), MemoryFS()
+        b.writebytes("inb", b"1")
+        a.writebytes("ina", b"2")
+        mfs.mount("p/q", b)
+        try:
+            mfs.mount("p", a)
+        except Exception:
+            pass
+        return Backend(kind, mfs, inner=[a, b])
     if kind == "zip-w":
         from fs.zipfs import ZipFS
         import io
